@@ -56,8 +56,21 @@ CONSTANTS
                             \*       (code: closes silently after its lingering time; the client pools e.g. CONNECT + 404/204)
     Http10NoChunkedReq,     \* (x)   client refuses / avoids Transfer-Encoding on an HTTP/1.0 request (code: sends it)
     Expect10Proceeds,       \* (xi)  client does not wait for 100 Continue on HTTP/1.0 (code: waits forever)
-    RefusedPrepareCleansWriter  \* (xii) prepare() that raises (chunked encoding on HTTP/1.0) leaves the request's StreamWriter
+    RefusedPrepareCleansWriter, \* (xii) prepare() that raises (chunked encoding on HTTP/1.0) leaves the request's StreamWriter
                             \*       untouched (code: compression already enabled; the framework's 500 page goes through it)
+    FailedPrepareCleansWriter,  \* (xiii) prepare() failing after _prepare_headers (an on_response_prepare handler raises):
+                            \*       the 500 page is not written through the writer state of the failed response
+                            \*       (code: writer.chunked / compression stay enabled: chunk framing behind a Content-Length)
+    WithheldBodyCloses,     \* (xiv) client: a request whose body was never started (Expect: 100-continue answered by a final
+                            \*       response) is not followed by another request on that connection (code: the cancellation of
+                            \*       the body writer at `await self._continue` is outside the try that closes: connection pooled)
+    HostKeptOnRetry,        \* (xv)  client: the retry of an idempotent request on a new connection carries the caller's Host
+                            \*       header (code: ClientRequest._update_headers pops Host out of the dict _request() reuses)
+    \* mechanisms (TRUE in the ideal design AND in the code as found; switched off only by the self-test / exhibits)
+    CutBodyCloses,          \* client: body writer cancelled in mid-body by an early final response => connection closed
+    CancelCloses,           \* client: caller cancelled before the end of the response => connection closed, never pooled
+    FreshHeaderContainer    \* server: a response copies the header container it is given (nothing of an earlier response's
+                            \*       framing fields is carried into the next one built from the same container)
 
 None == -1                      \* "header absent" / "no length"
 
@@ -72,14 +85,32 @@ Kinds     == {"bytes0", "bytesN", "bytesChunked", "paySized", "payUnsized", "str
 Comps     == {"off", "nego", "forced"}
 HConns    == {"none", "close", "keepalive"}
 
-RespInputs == [m : Methods, ver : Versions, rconn : ReqConns, st : Statuses, kind : Kinds,
-               comp : Comps, fclose : BOOLEAN, hconn : HConns]
+StreamKinds == {"streamCL", "streamChunked", "streamPlain"}
+\* carry = "te": the handler builds the response from a header container that an earlier chunked response was built from
+\* hook  = "raise": an on_response_prepare handler raises inside StreamResponse.prepare() (called by the handler)
+RespInputs == {i \in [m : Methods, ver : Versions, rconn : ReqConns, st : Statuses, kind : Kinds,
+                      comp : Comps, fclose : BOOLEAN, hconn : HConns, carry : {"none", "te"}, hook : {"ok", "raise"}] :
+                  /\ i.carry = "te" => i.kind \in StreamKinds \cup {"file"}
+                  /\ i.hook = "raise" => i.kind \in StreamKinds}
 
 ReqMethods == {"GET", "HEAD", "POST", "DELETE"}
-ReqBodies  == {"none", "empty", "sized", "unsized"}
+ReqBodies  == {"none", "empty", "sized", "unsized", "slowSized", "slowUnsized"}
+              \* slow = an async generator that yields between pieces; slowSized: the caller sets Content-Length itself
 ChunkedArg == {"None", "True", "False"}
-ReqInputs  == [m : ReqMethods, ver : Versions, body : ReqBodies, chunked : ChunkedArg,
-               compress : BOOLEAN, expect : BOOLEAN]
+\* early  the handler answers without reading the request body
+\* xmode  how the route treats Expect: default (100 Continue on HTTP/1.1) | reject (expect handler answers 417/403) |
+\*        no100 (a custom expect handler that sends nothing)
+\* abort  the caller is cancelled before the response head / inside the response body
+\* pre    connection history: fresh | reused (pooled, alive) | stale (pooled, the server has closed it, FIN in flight)
+\* chost  the caller passes its own Host header
+ReqInputs  == {r \in [m : ReqMethods, ver : Versions, body : ReqBodies, chunked : ChunkedArg,
+                      compress : BOOLEAN, expect : BOOLEAN, early : BOOLEAN, xmode : {"default", "reject", "no100"},
+                      abort : {"none", "beforeHead", "midBody"}, pre : {"fresh", "reused", "stale"}, chost : BOOLEAN] :
+                  /\ r.xmode # "default" => r.expect
+                  /\ r.xmode = "no100" => r.early                 \* (a handler that then waits for the body is an application bug)
+                  /\ r.abort # "none" => (~r.early /\ r.xmode = "default" /\ r.pre = "fresh" /\ ~r.chost)
+                  /\ r.pre # "fresh" => (~r.early /\ r.xmode = "default")
+                  /\ r.chost => (~r.early /\ r.xmode = "default")}
 
 Sz0 == [n |-> 7, z |-> 5, z0 |-> 2]
 Zof(p, sz) == IF p = 0 THEN sz.z0 ELSE sz.z
@@ -143,6 +174,7 @@ SrvDecideD(i, sz, D) ==
                    ELSE None
         unsized == ~chFlag /\ wLen = None
         wChunk  == ~me /\ i.ver = 11 /\ (chFlag \/ unsized)     \* writer.enable_chunking()
+        staleTE == i.carry = "te" /\ ~D.FreshHeaderContainer /\ ~me   \* Transfer-Encoding left in the shared container
         eofDel  == unsized /\ i.ver = 10 /\ ~me                 \* `keep_alive = False` (local)
         kaHdr   == IF eofDel THEN FALSE ELSE ka0
         kaSelf  == IF eofDel /\ D.Http10UnsizedCloses THEN FALSE ELSE ka0
@@ -170,12 +202,22 @@ SrvDecideD(i, sz, D) ==
         stale   == comp /\ ~D.RefusedPrepareCleansWriter         \* writer.enable_compression() happened before the raise
         sentR   == IF i.m = "HEAD" THEN (IF stale /\ ~D.EmptyBodyNoFlush THEN Zof(0, sz) ELSE 0)
                    ELSE IF stale THEN Zof(sz.n, sz) ELSE sz.n
+        \* hook = raise: _prepare_headers ran to its end (chunking, compression enabled), then prepare() raised
+        hookF   == ~refused /\ i.hook = "raise"
+        staleCh == wChunk /\ ~D.FailedPrepareCleansWriter
+        staleCo == wCompE /\ ~D.FailedPrepareCleansWriter
+        sentH   == IF i.m = "HEAD" THEN (IF staleCo THEN Zof(0, sz) ELSE 0)
+                   ELSE IF staleCo THEN Zof(sz.n, sz) ELSE sz.n
     IN IF refused
        THEN [refused |-> TRUE, st |-> 500,
              cl |-> sz.n, te |-> "none", conn |-> IF i.ver = 11 THEN "close" ELSE "none", ce |-> FALSE,
              wChunked |-> FALSE, sent |-> sentR, keeps |-> FALSE]
+       ELSE IF hookF
+       THEN [refused |-> TRUE, st |-> 500,
+             cl |-> sz.n, te |-> "none", conn |-> IF i.ver = 11 THEN "close" ELSE "none", ce |-> FALSE,
+             wChunked |-> staleCh, sent |-> sentH, keeps |-> FALSE]
        ELSE [refused |-> FALSE, st |-> i.st,
-             cl |-> cl2, te |-> IF wChunk THEN "chunked" ELSE "none", conn |-> conn, ce |-> comp,
+             cl |-> cl2, te |-> IF wChunk \/ staleTE THEN "chunked" ELSE "none", conn |-> conn, ce |-> comp,
              wChunked |-> wChunk, sent |-> sent,
              keeps |-> kaSelf /\ ~linger]
 
@@ -205,30 +247,51 @@ CliDecideD(i0, e, D) ==
 (* Request side, sender: the client.                                                            *)
 GetMethods == {"GET", "HEAD"}         \* ClientRequest.GET_METHODS (+ OPTIONS, TRACE)
 
+IdempotentMethods == {"GET", "HEAD", "DELETE"}      \* client.py IDEMPOTENT_METHODS (+ OPTIONS, TRACE, PUT)
+
 ReqDecideD(r, sz, D) ==
     LET hasData  == r.body # "none"
-        truthy   == r.body \in {"sized", "unsized"}              \* `if not data: return`
+        truthy   == r.body \in {"sized", "unsized", "slowSized", "slowUnsized"}      \* `if not data: return`
+        slow     == r.body \in {"slowSized", "slowUnsized"}
+        noSize   == r.body \in {"unsized", "slowSized", "slowUnsized"}               \* payload.size is None
+        userCL   == r.body = "slowSized"                         \* Content-Length among the caller's headers
         L        == IF truthy THEN sz.n ELSE 0
         comp     == r.compress /\ truthy                        \* _update_content_encoding
         ch0      == IF comp THEN "True" ELSE r.chunked           \* self.chunked = True
         chT0     == ch0 = "True"
         \* _update_body_from_data
-        cl       == IF ~hasData
+        cl       == IF userCL THEN L
+                    ELSE IF ~hasData
                         THEN (IF r.m \notin GetMethods /\ ~chT0 THEN 0 ELSE None)
-                    ELSE IF ~chT0 /\ r.body # "unsized" THEN L ELSE None
-        ch1      == IF hasData /\ ~chT0 /\ r.body = "unsized" THEN "True" ELSE ch0
+                    ELSE IF ~chT0 /\ ~noSize THEN L ELSE None
+        ch1      == IF hasData /\ ~chT0 /\ noSize /\ ~userCL THEN "True" ELSE ch0
         chT      == ch1 = "True"
         \* _update_transfer_encoding is only called when data is not None or method not in GET_METHODS
         teCalled == hasData \/ r.m \notin GetMethods \/ D.ChunkedSetsTE
-        te       == IF chT /\ teCalled THEN "chunked" ELSE "none"
-        refused  == (D.Http10NoChunkedReq /\ r.ver = 10 /\ te = "chunked")
+        te       == IF chT /\ teCalled /\ cl = None THEN "chunked" ELSE "none"
+        refused  == \/ (D.Http10NoChunkedReq /\ r.ver = 10 /\ te = "chunked")
+                    \/ (chT /\ teCalled /\ cl # None)          \* ValueError: chunked with a Content-Length header
         \* _create_writer
         wChunk   == IF D.ChunkedFlagTruthy THEN chT ELSE ch1 # "None"
         sent     == IF comp THEN Zof(L, sz) ELSE L
         expectH  == r.expect /\ ~(D.Expect10Proceeds /\ r.ver = 10)   \* ideal: no expectation towards an HTTP/1.0 server
         waits100 == expectH
+        \* how much of the declared body reaches the wire (_write_bytes; ClientResponse._response_eof cancels the writer)
+        gets100  == waits100 /\ r.ver = 11 /\ r.xmode = "default"
+        finalEarly == r.early \/ r.xmode = "reject"              \* a final response arrives without the body being read
+        bodySent == IF waits100 /\ finalEarly THEN "none"         \* still (or again) at `await self._continue`
+                    ELSE IF slow /\ finalEarly THEN "part"
+                    ELSE "all"
+        cut      == (cl > 0 \/ te = "chunked") /\ bodySent # "all"
+        cliCloses == \/ (bodySent = "none" /\ D.WithheldBodyCloses)
+                     \/ (bodySent = "part" /\ D.CutBodyCloses)
+                     \/ (r.abort # "none" /\ D.CancelCloses)
+        \* ClientSession._request: a pooled connection that turns out dead => one retry for idempotent methods
+        retried  == r.pre = "stale" /\ r.m \in IdempotentMethods
+        hostKept == ~r.chost \/ ~retried \/ D.HostKeptOnRetry
     IN [refused |-> refused, cl |-> cl, te |-> te, ce |-> comp, expect |-> expectH,
-        wChunked |-> wChunk, sent |-> sent, waits100 |-> waits100]
+        wChunked |-> wChunk, sent |-> sent, waits100 |-> waits100, finalEarly |-> finalEarly,
+        bodySent |-> bodySent, cut |-> cut, cliCloses |-> cliCloses, retried |-> retried, hostKept |-> hostKept]
 
 (* Request side, receiver: the server.                                                          *)
 SrvReqDecideD(r, e, D) ==
@@ -238,12 +301,16 @@ SrvReqDecideD(r, e, D) ==
                       THEN (IF e.te = "chunked" THEN Mode("Chunked", 0) ELSE Mode("Length", e.cl))
                   ELSE IF ~emptyB /\ e.cl = 0 THEN Mode("Length", 0)
                   ELSE Mode("Empty", 0)
-        sends100 == e.expect /\ r.ver = 11                       \* _default_expect_handler
-    IN [err |-> err, mode |-> mode, sends100 |-> sends100]
+        sends100 == e.expect /\ r.ver = 11 /\ r.xmode = "default"   \* _default_expect_handler
+        \* RequestHandler.start: request payload not at EOF after the response => lingering read, then close
+        srvCloses == e.cut /\ mode.k # "Empty"
+    IN [err |-> err, mode |-> mode, sends100 |-> sends100, srvCloses |-> srvCloses]
 
 -----------------------------------------------------------------------------
 (* The tables take the deviation switches as a record D; DC is the configuration given by the CONSTANTS.   *)
-DevNames == {"Http10UnsizedCloses", "ChunkedFlagTruthy", "ChunkedSetsTE", "HeadStreamSuppressed", "EmptyBodyNoFlush", "HandlerConnHonored", "HeadReqBodyFramed", "HeadNoLenReusable", "ConnectAware", "Http10NoChunkedReq", "Expect10Proceeds", "RefusedPrepareCleansWriter"}
+DevNames == {"Http10UnsizedCloses", "ChunkedFlagTruthy", "ChunkedSetsTE", "HeadStreamSuppressed", "EmptyBodyNoFlush", "HandlerConnHonored", "HeadReqBodyFramed", "HeadNoLenReusable", "ConnectAware", "Http10NoChunkedReq", "Expect10Proceeds", "RefusedPrepareCleansWriter",
+             "FailedPrepareCleansWriter", "WithheldBodyCloses", "HostKeptOnRetry",
+             "CutBodyCloses", "CancelCloses", "FreshHeaderContainer"}
 DC == [Http10UnsizedCloses |-> Http10UnsizedCloses,
        ChunkedFlagTruthy |-> ChunkedFlagTruthy,
        ChunkedSetsTE |-> ChunkedSetsTE,
@@ -255,7 +322,13 @@ DC == [Http10UnsizedCloses |-> Http10UnsizedCloses,
        ConnectAware |-> ConnectAware,
        Http10NoChunkedReq |-> Http10NoChunkedReq,
        Expect10Proceeds |-> Expect10Proceeds,
-       RefusedPrepareCleansWriter |-> RefusedPrepareCleansWriter]
+       RefusedPrepareCleansWriter |-> RefusedPrepareCleansWriter,
+       FailedPrepareCleansWriter |-> FailedPrepareCleansWriter,
+       WithheldBodyCloses |-> WithheldBodyCloses,
+       HostKeptOnRetry |-> HostKeptOnRetry,
+       CutBodyCloses |-> CutBodyCloses,
+       CancelCloses |-> CancelCloses,
+       FreshHeaderContainer |-> FreshHeaderContainer]
 Ideal == [n \in DevNames |-> TRUE]
 OnlyOff(k) == [n \in DevNames |-> n # k]          \* everything ideal except deviation k
 
@@ -327,21 +400,29 @@ Norm(a) == IF a.k = "Length" /\ a.n = 0 THEN Mode("Empty", 0) ELSE a      \* a z
 SameMode(a, b) == Norm(a) = Norm(b)
                   \/ (a.k = "Tunnel" /\ b.k = "UntilEOF")              \* a tunnel is consumed until the connection ends
 
-InvNames == {"FramingTruthful", "ReceiverFollowsRfc", "CloseAgree", "NoHang"}
+InvNames == {"FramingTruthful", "ReceiverFollowsRfc", "CloseAgree", "NoHang", "UnfinishedNeverReused", "RetrySameRequest"}
 
 RespChecks(i, o, r) ==
     LET orc == Rfc9112BodyLength(o.st, i.m, i.ver, o) IN
     [FramingTruthful    |-> Truthful(orc, o) /\ FieldRules(i.ver, o.st, i.m, o),
      ReceiverFollowsRfc |-> ~r.err /\ SameMode(orc, r.mode),
      CloseAgree         |-> (o.keeps <=> r.reuses) /\ (r.mode.k = "UntilEOF" => ~o.keeps),
-     NoHang             |-> ~(r.mode.k = "UntilEOF" /\ o.keeps)]
+     NoHang             |-> ~(r.mode.k = "UntilEOF" /\ o.keeps),
+     UnfinishedNeverReused |-> TRUE,
+     RetrySameRequest   |-> TRUE]
 
 ReqChecks(q, o, r) ==
     LET orc == Rfc9112ReqBodyLength(o) IN
-    [FramingTruthful    |-> Truthful(orc, o) /\ FieldRules(q.ver, 0, "", o),
+    [FramingTruthful    |-> FieldRules(q.ver, 0, "", o) /\ (o.bodySent = "all" => Truthful(orc, o)),
      ReceiverFollowsRfc |-> ~r.err /\ SameMode(orc, r.mode),
      CloseAgree         |-> TRUE,
-     NoHang             |-> ~(o.waits100 /\ ~r.sends100)]
+     NoHang             |-> ~(o.waits100 /\ ~r.sends100 /\ ~o.finalEarly),
+     \* a connection on which a declared request body was not completed, or whose caller gave up before the end of
+     \* the response, never carries another request (client), and the server does not wait on it for ever
+     UnfinishedNeverReused |-> /\ (o.cut \/ q.abort # "none") => o.cliCloses
+                               /\ o.cut => r.srvCloses,
+     \* the retry of a request is the same request (the caller's Host header included)
+     RetrySameRequest   |-> o.hostKept]
 
 Oracle    == Rfc9112BodyLength(out.st, inp.m, inp.ver, out)
 ReqOracle == Rfc9112ReqBodyLength(out)
@@ -352,12 +433,15 @@ FramingTruthful    == Holds("FramingTruthful")
 ReceiverFollowsRfc == Holds("ReceiverFollowsRfc")
 CloseAgree         == Holds("CloseAgree")
 NoHang             == Holds("NoHang")
+UnfinishedNeverReused == Holds("UnfinishedNeverReused")
+RetrySameRequest   == Holds("RetrySameRequest")
 
 (* Every deviation on its own (everything else ideal) must break an invariant, and the driver wants to know
    which, on how many inputs, and where: a constant-level enumeration over the same product space
    (one pass per deviation over the side it belongs to), printed by a POSTCONDITION
    (WireDecisionExhibit.tla runs it for a subset of the deviations, so that the subsets run in parallel).   *)
-ReqSideDevs == {"ChunkedFlagTruthy", "ChunkedSetsTE", "HeadReqBodyFramed", "Http10NoChunkedReq", "Expect10Proceeds"}
+ReqSideDevs == {"ChunkedFlagTruthy", "ChunkedSetsTE", "HeadReqBodyFramed", "Http10NoChunkedReq", "Expect10Proceeds",
+                "WithheldBodyCloses", "HostKeptOnRetry", "CutBodyCloses", "CancelCloses"}
 FailResp(i, D) == LET o == SrvDecideD(i, Sz0, D)
                       v == RespChecks(i, o, CliDecideD(i, o, D))
                   IN  {n \in InvNames : ~v[n]}
@@ -392,10 +476,16 @@ DevExpect10      == ~Expect10Proceeds /\ ReqDone /\ inp.ver = 10 /\ inp.expect
 
 FramingTruthfulButKnown ==
     FramingTruthful \/ DevHeadStream \/ DevEmptyFlush \/ DevChunkedFalse \/ DevChunkedNoTE \/ DevHttp10TE \/ DevStaleWriter
+        \/ (~FailedPrepareCleansWriter /\ RespDone /\ out.refused /\ inp.hook = "raise")
 ReceiverFollowsRfcButKnown == ReceiverFollowsRfc \/ DevHeadReqBody
 CloseAgreeButKnown ==
     CloseAgree \/ DevHttp10Unsized \/ DevHandlerConn \/ DevHeadNoLen \/ DevConnect
 NoHangButKnown == NoHang \/ DevHttp10Unsized \/ DevExpect10
+DevStaleChunk    == ~FailedPrepareCleansWriter /\ RespDone /\ out.refused /\ inp.hook = "raise"
+DevWithheld      == ~WithheldBodyCloses /\ ReqDone /\ out.bodySent = "none"
+DevHostRetry     == ~HostKeptOnRetry /\ ReqDone /\ inp.chost /\ inp.pre = "stale"
+UnfinishedNeverReusedButKnown == UnfinishedNeverReused \/ DevWithheld
+RetrySameRequestButKnown == RetrySameRequest \/ DevHostRetry
 
 \* vacuity guards used by the self-test: the deviation predicates are reachable
 ReachHttp10Unsized == ~DevHttp10Unsized
